@@ -109,6 +109,24 @@ Theorem C13_arp_reply_iff : forall s intf mac op dst t,
   op = 1%N /\ (dst = bcast \/ dst = mac) /\ should_announce s t intf = DNone.
 Proof. exact arp_reply_iff. Qed.
 
+(* The same on the received FRAME, to make explicit which address the filter is about: "addressed
+   to the node or to broadcast" is the destination of the ETHERNET header ([f_eth_dst]), not the
+   target-hardware-address field of the ARP payload ([f_tha]).  A request sent to the node's MAC
+   with a zero THA is answered for an announced address; a frame for another station whose THA is
+   the node's MAC is not.  The Go generator chooses the two independently (own MAC / broadcast /
+   another station / zero each) and ships both to [arp_process_frame]. *)
+Theorem C13_arp_frame_reply_iff : forall s intf mac f,
+  arp_process_frame s intf mac f = DNone <->
+  f_op f = 1%N /\ (f_eth_dst f = bcast \/ f_eth_dst f = mac) /\ should_announce s (f_target f) intf = DNone.
+Proof. exact arp_frame_reply_iff. Qed.
+
+(* BY DEFINITION of [arp_process_frame] (the field is not read): the decision does not depend on the
+   ARP payload's target hardware address.  What carries weight is that the real responder agrees
+   with [arp_process_frame] on frames whose THA differs from the Ethernet destination (oracle). *)
+Theorem C13_arp_tha_irrelevant : forall s intf mac f tha,
+  arp_process_frame s intf mac (mk_arp_frame (f_eth_dst f) (f_op f) tha (f_target f)) = arp_process_frame s intf mac f.
+Proof. exact arp_frame_tha_irrelevant. Qed.
+
 Theorem C13_ndp_reply_iff : forall s intf ns ll t,
   ndp_process s intf ns ll t = DNone <-> ns = true /\ ll = true /\ should_announce s t intf = DNone.
 Proof. exact ndp_reply_iff. Qed.
